@@ -123,12 +123,12 @@ PROPS = {
     "C19": {
         "title": "Idle/empty/finished queries tell the truth",
         "lean": ["TopsimProps.C19", "TopsimProofs.Bridge.Queries"],
-        "streams": [("default", 24, 300), ("chaotic", 12, 200), ("clusterops", 20, 400), ("tiering", 10, 150), ("tierback", 8, 100)],
+        "streams": [("default", 24, 300), ("chaotic", 12, 200), ("clusterops", 20, 400), ("tiering", 10, 150), ("tierback", 8, 100), ("shutdown", 12, 150)],
         "monitor": ["C19"],
     },
 }
 
 DIRECT_N = {  # (quick, thorough)
     "c06": (150, 3000), "c14": (60, 1500), "c15": (0, 0), "c16": (80, 2000), "c18": (80, 2000),
-    "c10": (16, 120), "c11": (4, 30),
+    "c10": (16, 120), "c11": (6, 30),
 }
